@@ -6,8 +6,11 @@ HERE = Path(__file__).resolve().parent
 ALL = ["C%02d" % i for i in range(1, 21)]
 # property -> (technique, level text, level note, design section)
 CLAIMED = {}
+# only properties the coordinator has integrated (green for seeds 0..4, reviewed) are claimed
+READY = (HERE / "claims" / "ready.txt").read_text().split()
 for f in sorted((HERE / "claims").glob("C*.json")):
-    CLAIMED[f.stem] = json.loads(f.read_text())
+    if f.stem in READY:
+        CLAIMED[f.stem] = json.loads(f.read_text())
 # known findings: per-property fragments known_findings.d/Cxx.json -> one committed file
 kf = {"findings": [], "fixed": []}
 for f in sorted((HERE / "known_findings.d").glob("C*.json")):
